@@ -1,6 +1,6 @@
 (* C06 -- property theorems only.  Proofs live in C06/Proofs*.v and C06/Tables.v. *)
 From Coq Require Import NArith List Bool.
-From DV Require Import Base.Outcome Base.Bytes C06.Gen C06.Model C06.Proofs C06.Proofs2 C06.Tables C06.Proofs3 C06.Proofs4 C06.Blob.
+From DV Require Import Base.Outcome Base.Bytes C06.Gen C06.Model C06.Proofs C06.Proofs2 C06.Tables C06.Proofs3 C06.Proofs4 C06.Blob C06.Proofs5.
 Import ListNotations.
 Local Open Scope N_scope.
 
@@ -136,6 +136,22 @@ Proof.
   repeat split; try assumption. apply rest_tokens_words.
 Qed.
 Print Assumptions C06_blob64_roundtrip.
+
+Theorem C06_lex_agrees_with_state_machine : forall t q e acc p ts sp syms rest,
+  lex q e t = Ok (syms, rest) ->
+  run (Ok (p, ts, MTok q sp acc e)) t = run (Ok (p, mk_tok q sp (rev acc ++ syms) :: ts, MSkip false)) rest.
+Proof. exact lex_run. Qed.
+Print Assumptions C06_lex_agrees_with_state_machine.
+
+Theorem C06_fast_path_agrees : forall q t, ~ In 127 (fst (fst (fast_take q t))) ->
+  scan_octets_text q t = slow_octets q t.
+Proof. exact fast_path_agrees. Qed.
+Print Assumptions C06_fast_path_agrees.
+
+Theorem C06_fast_path_agrees_refuted : exists q t,
+  scan_octets_text q t = Ok ([127], [32]) /\ slow_octets q t = Err E_symbol.
+Proof. exact fast_path_agrees_refuted. Qed.
+Print Assumptions C06_fast_path_agrees_refuted.
 
 Theorem C06_generic_form_roundtrip : forall k owner ttl cl rt data,
   wf_name owner -> ttl <= 4294967295 -> cl < 65536 -> rt < 65536 ->
